@@ -296,6 +296,9 @@ func genSpec(r *vh.Rand, pool []string) string {
 	}
 	if n := r.Pick(names); n != "" {
 		s += n + " "
+		if r.Chance(10) {
+			s += "/* mid */ "
+		}
 	}
 	s += lit(r, r.Pick(pool))
 	s += r.Pick(trailing)
@@ -325,6 +328,9 @@ func genFile(r *vh.Rand) []byte {
 			continue
 		}
 		b.WriteString("import (")
+		if r.Chance(8) {
+			b.WriteString(r.Pick([]string{" // open", " /* open */"}))
+		}
 		if r.Chance(5) {
 			b.WriteString(")\n")
 			continue
@@ -351,6 +357,9 @@ func genFile(r *vh.Rand) []byte {
 		}
 		if r.Chance(10) {
 			b.WriteString("\n")
+		}
+		if r.Chance(8) {
+			b.WriteString(r.Pick([]string{"\t// before close\n", "\t/* before close */\n", "\n\t// detached\n\n"}))
 		}
 		if d == nd-1 && r.Chance(8) {
 			// the file ends right after the last spec: `"x")` without a newline
